@@ -1,6 +1,7 @@
 import WindVerif.Proofs.PoolLifeAux3
 import WindVerif.Proofs.PoolLifeMid
 import WindVerif.Proofs.PoolLifeMidB
+import WindVerif.Proofs.PoolExited
 /-! Worker lifecycle in the pool model (C04): holds with the injected faults too. -/
 namespace WindVerif.Pool
 
@@ -28,17 +29,6 @@ theorem ready_after_begin (cfg : Cfg) (s : St) (h : Reach cfg s) (hr : cfg.waitR
     hI.ready (by rw [hc]; exact hr) w hw (by rw [readyUpto_post hpost, hc]; exact hinit)
   exact ⟨(hI.wk w hw).bfLog hbf, fun _ => hbf⟩
 
-/-- a worker is at `.ending` (its wid posted, `end()` still to run) only in a pool with a finite join timeout -/
-theorem ending_only_joinTimeout (cfg : Cfg) (s : St) (h : Reach cfg s) (w : Worker) (hw : w ∈ s.workers)
-    (hpc : w.pc = .ending) : cfg.joinTimeout = true := by
-  obtain ⟨hI, hc⟩ := LInv_reach h
-  rw [← hc]; exact (hI.wk w hw).ending hpc
-
-theorem exited_of_gone {cfg : Cfg} {w : Worker} (hW : WInv cfg w) (hjt : cfg.joinTimeout = false) (hg : gone w.pc = true) :
-    w.pc = .exited := by
-  cases hpc : w.pc <;> rw [hpc] at hg <;> first | rfl | cases hg | skip
-  have := hW.ending hpc; rw [hjt] at this; cases this
-
 /-- when the pool context has been left — of a pool WITHOUT a join timeout (`join_timeout=None`) —, no worker is running,
 replaced workers included.  (With a finite join timeout this is false: `exit_returns_with_running_worker` in
 `Proofs/PoolJoinTimeout.lean`; `imap_maximal_all_exited` / `eventually_all_exited` there is what remains.) -/
@@ -46,9 +36,44 @@ theorem exit_joins_all (cfg : Cfg) (hjt : cfg.joinTimeout = false) (s : St) (h :
     AllExited s := by
   obtain ⟨hI, hc⟩ := LInv_reach h
   intro w hw
-  apply exited_of_gone (hI.wk w hw) (by rw [hc]; exact hjt)
-  by_cases hg : gone w.pc = true
-  · exact hg
-  · exact hI.done hd w.wid (hI.listed w hw (by simpa using hg)) (by rw [hc]; exact hjt) w hw rfl
+  by_cases hin : w.wid ∈ s.procs
+  · -- listed: `__exit__` has joined it (the join blocks while the worker is inside `end()`)
+    exact hI.done hd w.wid hin (by rw [hc]; exact hjt) w hw rfl
+  · -- replaced: the replace thread has joined it before it overwrote the slot
+    exact unlisted_exited' cfg hjt s h w hw hin
+
+/-- a plain pool with one worker, no call, `join_timeout=None` -/
+def endCfg : Cfg :=
+  { nWorkers := 1, workCap := none, resCap := none, factory := false, quota := none, waitReady := false, calls := [],
+    beginFault := [], itemFault := [] }
+
+/-- `__enter__` starts worker 0, `__exit__` posts the stop order; worker 0 runs `begin()` and takes the stop order -/
+def endSched : List Tid := [.c, .c, .w 0, .w 0, .w 0]
+
+theorem endSched_run : (run (init endCfg) endSched).map
+    (fun s => ((s.cpc, (step s .c).isSome), s.workers.map (fun w => (w.wid, w.pc, w.log)))) =
+    some ((.exitJoin 0, false), [(0, .ending, [.begin])]) := by decide +kernel
+
+/-- `end()` is a step of its own in every configuration — also without a join timeout: a reachable state of a plain pool
+(`join_timeout=None`) in which the worker has taken its stop order and has `end()` still to run (`.ending`), while the join of
+`__exit__` blocks.  (The former `ending_only_joinTimeout` — `.ending` only with a join timeout — is false in this model.) -/
+theorem ending_without_timeout :
+    ∃ cfg sched s, cfg.joinTimeout = false ∧ run (init cfg) sched = some s ∧ s.cpc = .exitJoin 0 ∧ step s .c = none ∧
+      ∃ w ∈ s.workers, w.pc = .ending ∧ w.log = [.begin] := by
+  cases hr : run (init endCfg) endSched with
+  | none => have := endSched_run; rw [hr] at this; cases this
+  | some s =>
+    have := endSched_run; rw [hr] at this
+    simp only [Option.map_some, Option.some.injEq, Prod.mk.injEq] at this
+    obtain ⟨⟨h1, h2⟩, h3⟩ := this
+    cases hw : s.workers with
+    | nil => rw [hw] at h3; cases h3
+    | cons a r =>
+      rw [hw] at h3
+      simp only [List.map_cons, List.cons.injEq, Prod.mk.injEq] at h3
+      refine ⟨endCfg, endSched, s, rfl, hr, h1, ?_, a, by rw [hw]; simp, h3.1.2.1, h3.1.2.2⟩
+      cases hc : step s .c with
+      | none => rfl
+      | some x => rw [hc] at h2; cases h2
 
 end WindVerif.Pool
